@@ -39,8 +39,11 @@ class CaseCtx:
     def __init__(self, case):
         self.case = case
         self.files = {}
+        # signature style varied deterministically per layout shape: every parameter on the def line, or a
+        # wrapped signature with one parameter per line BELOW the def line
+        self.style = "wrap" if sum(map(ord, shape_key(case))) % 2 else None
         for slot, mod in case["ws"].items():
-            self.files[slot] = R.render_checked(UNI, slot, mod)
+            self.files[slot] = R.render_checked(UNI, slot, mod, self.style)
 
     def setup_ops(self):
         ops = []
